@@ -217,16 +217,25 @@ theorem stageConnection_ok {hs : List Hdr} (wf : HdrsWf hs) :
     · simp [ht]
     · simp [ht, bad]
 
-/-- what `int()` reads in the version header, when it is a supported version -/
-def pyVersion (cfg : SrvCfg) (hs : List Hdr) : Option Nat :=
-  match pyInt (value hs b!"sec-websocket-version") with
-  | some v => if 0 ≤ v ∧ v.toNat ∈ cfg.versions then some v.toNat else none
-  | none => none
+/-- the pattern the code matches the version header against denotes exactly the RFC 6455 `version` production (0–255) -/
+theorem versionNumeral_eq_rfcVersion (s : Bytes) : versionNumeral s = rfcVersion s := by
+  unfold versionNumeral rfcVersion
+  split
+  · rfl
+  · rfl
+  · next a b c =>
+    simp only [digitVal, isDigit, Bool.and_eq_true, Bool.or_eq_true, decide_eq_true_eq, beq_iff_eq,
+      UInt8.le_iff_toNat_le, ← UInt8.toNat_inj]
+    simp only [UInt8.toNat_ofNat]
+    split <;> split <;> (try split) <;> first | rfl | (exfalso; omega)
+  · rfl
 
 theorem stageVersion_ok {cfg : SrvCfg} {hs : List Hdr} (wf : HdrsWf hs) (ver : Nat) :
-    stageVersion cfg hs = .ok ver ↔ count hs b!"sec-websocket-version" = 1 ∧ pyVersion cfg hs = some ver := by
+    stageVersion cfg hs = .ok ver ↔
+      count hs b!"sec-websocket-version" = 1 ∧ rfcVersion (value hs b!"sec-websocket-version") = some ver ∧
+      ver ∈ cfg.versions := by
   rw [count_eq_one wf]
-  unfold stageVersion pyVersion value
+  unfold stageVersion value
   cases e : hget hs b!"sec-websocket-version" with
   | none => simp [bad]
   | some h =>
@@ -234,13 +243,18 @@ theorem stageVersion_ok {cfg : SrvCfg} {hs : List Hdr} (wf : HdrsWf hs) (ver : N
     by_cases hc : h.cnt > 1
     · simp [hc, bad]
     · simp only [hc, if_false, not_false_eq_true, true_and]
-      cases hp : pyInt h.val with
+      rw [versionNumeral_eq_rfcVersion]
+      cases hp : rfcVersion h.val with
       | none => simp [bad]
       | some v =>
         simp only
-        by_cases hv : 0 ≤ v ∧ v.toNat ∈ cfg.versions
-        · simp [hv]
-        · simp [hv]
+        by_cases hv : v ∈ cfg.versions
+        · simp only [hv, if_true, Except.ok.injEq, Option.some.injEq]
+          constructor
+          · rintro rfl; exact ⟨rfl, hv⟩
+          · rintro ⟨rfl, _⟩; rfl
+        · simp only [hv, if_false, reduceCtorEq, Option.some.injEq, false_iff, not_and]
+          rintro rfl; exact hv
 
 theorem stageProtocols_ok (hs : List Hdr) (ps : List Bytes) :
     stageProtocols hs = .ok ps ↔
@@ -325,13 +339,28 @@ theorem validate_ok (cfg : SrvCfg) (env : SrvEnv) (line : Bytes) (hs : List Hdr)
 
 /-! ### client stages -/
 
-/-- the status code token is written the RFC way whenever `int()` reads 101 from it -/
-def StrictStatus (line : Bytes) : Prop :=
-  ∀ a b rest, splitWs line = a :: b :: rest → pyInt b = some 101 → b = b!"101"
+/-- a three-digit status code that reads 101 is the literal `101` -/
+theorem statusCode_101 (s : Bytes) : statusCode s = some 101 ↔ s = b!"101" := by
+  constructor
+  · intro h
+    unfold statusCode at h
+    split at h
+    · next a b c =>
+      simp only [digitVal, isDigit, Bool.and_eq_true, decide_eq_true_eq, UInt8.le_iff_toNat_le] at h
+      simp only [UInt8.toNat_ofNat] at h
+      split at h
+      · simp only [Option.some.injEq] at h
+        have ha : a = 49 := UInt8.toNat_inj.1 (by simp only [UInt8.toNat_ofNat]; omega)
+        have hb : b = 48 := UInt8.toNat_inj.1 (by simp only [UInt8.toNat_ofNat]; omega)
+        have hc : c = 49 := UInt8.toNat_inj.1 (by simp only [UInt8.toNat_ofNat]; omega)
+        subst ha hb hc
+        rfl
+      · cases h
+    · cases h
+  · rintro rfl
+    decide
 
-theorem pyInt_101 : pyInt b!"101" = some 101 := by decide
-
-theorem cstageStatus_ok {line : Bytes} (strict : StrictStatus line) :
+theorem cstageStatus_ok {line : Bytes} :
     cstageStatus line = .ok () ↔ ∃ rest, splitWs line = b!"HTTP/1.1" :: b!"101" :: rest := by
   unfold cstageStatus
   split
@@ -339,17 +368,17 @@ theorem cstageStatus_ok {line : Bytes} (strict : StrictStatus line) :
     rw [hsp]
     by_cases hv : ver = b!"HTTP/1.1"
     · subst hv
-      cases hp : pyInt code with
+      cases hp : statusCode code with
       | none =>
         simp [cbad]
-        intro hc; rw [hc, pyInt_101] at hp; simp at hp
+        intro hc; rw [(statusCode_101 code).2 hc] at hp; cases hp
       | some n =>
         by_cases hn : n = 101
         · subst hn
-          have := strict _ _ _ hsp hp
+          have := (statusCode_101 code).1 hp
           simp [this]
         · simp [hn, cbad]
-          intro hc; rw [hc, pyInt_101] at hp; simp at hp; exact hn hp.symm
+          intro hc; rw [(statusCode_101 code).2 hc] at hp; simp at hp; exact hn hp.symm
     · simp [hv, cbad]
   · next hne =>
     simp [cbad]
@@ -459,7 +488,7 @@ theorem cstageProtocol_ok (cfg : CliCfg) (hs : List Hdr) (p : Option Bytes) :
       count hs b!"sec-websocket-protocol" ≤ 1 ∧
       ((strip (value hs b!"sec-websocket-protocol") = [] ∧ p = none) ∨
        (strip (value hs b!"sec-websocket-protocol") ≠ [] ∧
-        strip (value hs b!"sec-websocket-protocol") ∈ cfg.factoryProtocols ∧
+        strip (value hs b!"sec-websocket-protocol") ∈ cfg.protocols ∧
         p = some (strip (value hs b!"sec-websocket-protocol")))) := by
   unfold cstageProtocol value count
   cases e : hget hs b!"sec-websocket-protocol" with
@@ -477,7 +506,7 @@ theorem cstageProtocol_ok (cfg : CliCfg) (hs : List Hdr) (p : Option Bytes) :
         constructor
         · intro x; exact ⟨by omega, x.symm⟩
         · intro x; exact x.2.symm
-      · by_cases hm : strip h.val ∈ cfg.factoryProtocols
+      · by_cases hm : strip h.val ∈ cfg.protocols
         · simp [h0, hm]
           constructor
           · intro x; exact ⟨by omega, x.symm⟩
